@@ -30,6 +30,8 @@ def check(tree, rep, tier='quick', seed=0):
     R.k11_input_gate(core, rep)          # 'or it aborts with an error (... an invalid input)'
     l1_access(tree, rep)
     R.k32_solve_single_exit(core, rep)   # an answered input reaches its lines: the loop is never left with met dependencies undrained
+    from .c17 import shared_rule, get_catalogue
+    shared_rule(get_catalogue(tree), rep, rule='R17.7')   # an input missing from one copy of a form is not silently read from another copy's section
     rep.floor('core functions modelled', len(core.funcs), 120)
     R.k24_tracker_shape(core, rep, parts=('a', 'b'))
     R.k24e_waiters_only_tracker_mutates(core, rep)
